@@ -110,7 +110,7 @@ PATTERNS = [
         and _tc_exc(a) == "RuntimeError" and "Expected a TensorDictBase" in _msg(a) and _res(b) == ["PY", "None"]),
     ("D174-consolidate-to-file-with-nested-tensorclass", lambda c, a, b, f: c.get("recipe") == "consolidated" and c.get("embed") == "outer"
         and _tc_exc(a) == "RuntimeError" and "json" in _msg(a) and b.get("status") == "ok"),
-    ("D177-non-tensor-stack-result-wrapped-in-the-class", lambda c, a, b, f: c["mode"] == "call" and not c.get("embed")
+    ("D177-non-tensor-stack-result-wrapped-in-the-class", lambda c, a, b, f: c["mode"] == "call" and not c.get("embed") and c["name"] in ("popitem", "setdefault")
         and "nontensor-wrapped" in f and a.get("status") == "ok" and _only(f, "wrap") and '"stack"' in json.dumps(_res(b))),
     ("D178-cat-of-lazy-tensorclasses-densifies", lambda c, a, b, f: c["name"] == "cat" and not c.get("embed")
         and c["layout"] in ("lazy", "lazyhet") and a.get("status") == "ok" and _only(f, "kind")),
@@ -120,6 +120,8 @@ PATTERNS = [
         and a.get("status") == "ok" and _only(f, "wrap")),
 ]
 EXTRA_PATTERNS = [
+    ("D176-autocast-dict-into-none-field", lambda c, probs, f: c["stream"] == "attr" and c["cls"] == "AutoNest" and c.get("field") == "inner"
+        and c.get("vkind") == "tcdict" and probs and all("not in exactly one store" in p and "'inner'" in p for p in probs)),
     ("D167-derived-class-_load_memmap-replaced", lambda c, probs, f: c["stream"] == "chains" and c["cls"] in DERIVED and probs
         and " memmap: " in probs[0] and "raises KeyError" in probs[0] and "device" in probs[0]),
     ("D170-frozen-tensorclass-cannot-be-unpickled", lambda c, probs, f: c["stream"] == "chains" and c["cls"] in FROZEN and probs
@@ -309,8 +311,8 @@ def run_chunk(chunk):
         if case.get("stream") in EXTRA:
             try:
                 verdict, probs, flags, detail = c15_extra.run_extra(case)
-            except Exception as e:  # noqa: BLE001
-                verdict, probs, flags, detail = "uninformative", [], ["harness-error:" + type(e).__name__], {"msg": str(e)[:200]}
+            except Exception as e:  # noqa: BLE001 -- e.g. a subject that can no longer be constructed: reported, never skipped
+                verdict, probs, flags, detail = "fail", [f"the case could not be run: {type(e).__name__}: {str(e)[:160]}"], ["build"], {"msg": str(e)[:200]}
             out.append((i, verdict, probs, flags, detail, {}, None))
             continue
         try:
@@ -318,9 +320,9 @@ def run_chunk(chunk):
             o_td = Lb.invoke(case, "td")
             o_td2 = Lb.invoke(case, "td")
             verdict, probs, flags = Lb.judge(case, o_tc, o_td, o_td2)
-        except Exception as e:  # noqa: BLE001 -- the machinery must not crash the check; reported as uninformative
+        except Exception as e:  # noqa: BLE001 -- the machinery must not crash the check; reported, never skipped
             o_tc = o_td = {"status": "harness-error", "exc": type(e).__name__, "msg": str(e)[:200]}
-            verdict, probs, flags = "uninformative", [], ["harness-error:" + type(e).__name__]
+            verdict, probs, flags = "fail", [f"the case could not be run: {type(e).__name__}: {str(e)[:160]}"], ["build"]
         slim = lambda o: {k: (v if k != "post" else None) for k, v in o.items()}  # noqa: E731
         out.append((i, verdict, probs, flags, slim(o_tc) if verdict == "fail" else {"status": o_tc.get("status"), "exc": o_tc.get("exc")},
                     slim(o_td) if verdict == "fail" else {"status": o_td.get("status"), "exc": o_td.get("exc")},
